@@ -259,6 +259,10 @@ def triggered(m, sd):
 def order_cycle(tasks):
     """does the ordering relation (targets A & deps B, A != B) restricted to
     these tasks contain a cycle?"""
+    for t in tasks:
+        # a definition that reads its own target is a genuine data-flow cycle (outside the properties)
+        if isinstance(t, ExprTask) and t.taskid in t.dependencies:
+            return True
     ids = {id(t): i for i, t in enumerate(tasks)}
     adj = {i: [] for i in ids.values()}
     for a in tasks:
@@ -407,7 +411,13 @@ def run_case(case, opts):
                 def action(writes=writes):
                     for r, e in writes:
                         r._set_value(e._get_value() if isinstance(e, BaseRef) else e)
-                m.register(FunctionTask(op[1], action, set(mkref(roots, p) for p in op[2]), set(mkref(roots, p) for p in op[3])))
+                # targets and dependencies closed under enclosing containers, as ExprTask computes them
+                tars, deps = set(), set()
+                for p in op[2]:
+                    mkref(roots, p)._get_dependencies(tars)
+                for p in op[3]:
+                    mkref(roots, p)._get_dependencies(deps)
+                m.register(FunctionTask(op[1], action, tars, deps))
             elif kind == "regknob":
                 m.register(LinearKnob(op[1], mkref(roots, op[2]), [w for w, _ in op[3]], [mkref(roots, p) for _, p in op[3]]))
             elif kind == "unregister":
